@@ -237,3 +237,22 @@ CHECKS["C11"] = {
         {"variant": "tsan", "engine": "stress", "procs": 2, "rounds_quick": 800, "rounds_thorough": 15000},
     ],
 }
+
+CHECKS["C12"] = {
+    "src": "C12.cpp",
+    "level": "exploration",
+    "rule": "tiny concurrent rounds on rcu_list (unique values; pushers front/back/emplace, erasers by id/first/all, traversals with read and "
+            "write handles that pause on elements) and single-threaded sequences compared with std::list after every step. Per traversal: only "
+            "inserted values, no duplicates, every element that was in the list for the whole traversal (insert returned before, no erase "
+            "started before its end - logical clock) is visited; globally the union of all observed pairwise orders (traversals, final contents, "
+            "front/initial/back structure, per-thread and real-time push order) must be acyclic; final contents = inserted - erased. "
+            "Non-trivial: a traversal overlapped a mutation in logical time (seq: >= 6 steps); distinct = (program, schedule, final contents).",
+    "assumptions": ["real-time oracles (stable set, cross-thread push order) use the acq_rel logical clock and are disabled in TSan builds"],
+    "runs": [
+        {"variant": "asan", "engine": "off", "mode": "seq", "procs": 2, "rounds_quick": 4000, "rounds_thorough": 60000},
+        {"variant": "plain", "engine": "serial", "procs": 6, "rounds_quick": 8000, "rounds_thorough": 150000},
+        {"variant": "plain", "engine": "stress", "procs": 3, "rounds_quick": 4000, "rounds_thorough": 80000},
+        {"variant": "asan", "engine": "stress", "procs": 2, "rounds_quick": 1500, "rounds_thorough": 30000},
+        {"variant": "tsan", "engine": "stress", "procs": 2, "rounds_quick": 1000, "rounds_thorough": 20000},
+    ],
+}
